@@ -238,8 +238,11 @@ impl SwiftField for Field25AccountIdentification {
             Some("") => Ok(Field25AccountIdentification::NoOption(
                 Field25NoOption::parse(value)?,
             )),
-            // No variant specified, fall back to default parse behavior
-            _ => Self::parse(value),
+            // No option letter given: fall back to content-based detection
+            None => Self::parse(value),
+            Some(other) => Err(ParseError::InvalidFormat {
+                message: format!("Field 25 has no option '{}'", other),
+            }),
         }
     }
 
